@@ -244,3 +244,42 @@ pub fn exec_bounded(f: &mut Frontend, op: &crate::ops::FeOp, lent: &mut crate::o
     });
     (out, blocked)
 }
+
+/// Server-side counterpart of `exec_bounded`: run `f` (one `handle_request()` of a request server
+/// whose socket is `srv_fd`) on a helper thread. Everything the raw peer will ever send was written
+/// before the call; a server parked in recvmsg with nothing queued is waiting for bytes that will
+/// never come. It is released by shutting its socket down; the flag reports the certificate.
+pub fn serve_bounded<T: Send>(srv_fd: std::os::unix::io::RawFd, f: impl FnOnce() -> T + Send) -> (Result<T, PanicRec>, bool) {
+    use std::sync::atomic::{AtomicI32, Ordering};
+    let tid = AtomicI32::new(0);
+    let mut blocked = false;
+    let out = std::thread::scope(|s| {
+        let h = s.spawn(|| {
+            tid.store(sys::gettid(), Ordering::SeqCst);
+            catch(f)
+        });
+        let mut streak = 0;
+        let mut spins = 0u32;
+        while !h.is_finished() {
+            spins += 1;
+            if spins < 20 {
+                std::thread::yield_now();
+                continue;
+            }
+            let t = tid.load(Ordering::SeqCst);
+            if t > 0 && sys::inq(srv_fd) == 0 && sys::parked_in(t, &[sys::SYS_RECVMSG]) && sys::inq(srv_fd) == 0 {
+                streak += 1;
+                if streak >= 5 {
+                    blocked = true;
+                    unsafe { libc::shutdown(srv_fd, libc::SHUT_RDWR) };
+                    break;
+                }
+            } else {
+                streak = 0;
+            }
+            std::thread::sleep(std::time::Duration::from_micros(100));
+        }
+        h.join().unwrap_or_else(|_| Err(PanicRec { location: "?".into(), msg: "helper thread panicked".into(), thread: "?".into() }))
+    });
+    (out, blocked)
+}
